@@ -19,7 +19,7 @@ for d in sorted(glob.glob('/verif/seeded/*'), key=lambda p: (os.path.basename(p)
     else:
         missed += 1
         by = '**missed** — ' + clip(tail, 220)
-    rnd = '1' if int(sid.split('-')[1]) <= 2 else '2'
+    rnd = str((int(sid.split('-')[1]) + 1) // 2)
     rows.append(f"| {sid} | {rnd} | {clip(m.get('summary'), 230)} | {clip(m.get('needs'), 120)} | {by} |")
 table = ["| id | round | change | needs, to manifest | caught by |", "|---|---|---|---|---|"] + rows
 table.append("")
